@@ -28,8 +28,8 @@ _UNSET = object()
 _BCOLON = b":"
 _BHASH = b"#"
 
-# byte values that aren't allowed in fields.
-_INVALID_FIELD_CHARS = b":\n\r\t\x00"
+# byte values that aren't allowed in fields (the separator, and all ascii control characters).
+_INVALID_FIELD_CHARS = b":\x7f" + bytes(range(0x20))
 
 #: _CommonFile._source token types
 _SKIPPED = "skipped"
